@@ -96,7 +96,7 @@ def programs(tier):
     add('attribute-none-and-empty', doc(el('p', 'x', static=[['title', 't'], ['lang', 'l']], attributes=[['title', py('v')], ['lang', py('v')]],
                                            i18n_attributes='title the-id; lang'),
                                         el('q', 'y', static=[['title', ''], ['alt', '']], i18n_attributes='title; alt alt-id')),
-        [['v', 'cls', 0]])
+        [['v', 'maybe3', 0]])
     add('implicit-and-explicit', doc(el('img', static=[['alt', ['Logo of ', I('site')]], ['title', 'T']],
                                         i18n_attributes='alt; title')),
         [['site', 'int', 0]], options={'implicit_i18n_attributes': ['alt', 'title']})
